@@ -308,7 +308,8 @@ def validate_trace(ctx, module, path, label, cfg=None, timeout=900, heap="3g", m
     removal is one mismatch.  Returns list of mismatches (record, info)."""
     recs = read_ndjson(path)
     n_total = len(recs)
-    mismatches = []
+    mismatches = []        # records that blocked the trace (removed, then the rest is validated again)
+    round_mm = []          # records flagged by MISMATCH prints in the current round
     rounds = 0
     cur = path
     while True:
@@ -318,11 +319,14 @@ def validate_trace(ctx, module, path, label, cfg=None, timeout=900, heap="3g", m
                 keep_out=True)
         ctx.add_tlc(r, label + ("" if rounds == 1 else "#%d" % rounds), "trace_validation")
         rej = None
+        round_mm = []
+        seen_l = set()
         for p in r.prints:
             if isinstance(p, dict) and p.get("tag") == "REJECTED_AT":
                 rej = p
-            if isinstance(p, dict) and p.get("tag") == "MISMATCH":
-                mismatches.append((recs[p["l"] - 1] if 0 < p["l"] <= len(recs) else None, p))
+            if isinstance(p, dict) and p.get("tag") == "MISMATCH" and p["l"] not in seen_l:
+                seen_l.add(p["l"])      # TLC may evaluate an action (and its PrintT) more than once
+                round_mm.append((recs[p["l"] - 1] if 0 < p["l"] <= len(recs) else None, p))
         overflow = any("verflow" in e for e in r.errors) or "verflow" in r.out
         hard = [e for e in r.errors if "POSTCONDITION" not in e.upper() and "ostcondition" not in e]
         if rej is None and not hard and r.rc == 0:
@@ -353,12 +357,15 @@ def validate_trace(ctx, module, path, label, cfg=None, timeout=900, heap="3g", m
             bad = recs[k - 1] if k - 1 < len(recs) else None
             mismatches.append((bad, rej))
             recs = _drop(recs, k - 1, group_key)
-        if rounds >= max_rounds or not recs:
+        if not recs:
             break
+        if rounds >= max_rounds:
+            raise ToolError("trace validation %s: more than %d records block the trace or overflow TLC's integers; "
+                            "the remainder would go unvalidated" % (label, max_rounds))
         cur = path + ".r%d" % rounds
         write_ndjson(cur, recs)
     ctx.evals += n_total
-    return mismatches
+    return mismatches + round_mm
 
 
 def _drop(recs, idx, group_key):
